@@ -154,6 +154,9 @@ func (e *Env) eval(x SExpr) TV {
 
 func (e *Env) ident(name string) TV {
 	if s, ok := e.bound[name]; ok {
+		if s == SStr {
+			return TV{Sym(name, s), types.Typ[types.String]}
+		}
 		return TV{Sym(name, s), nil}
 	}
 	if l, ok := e.lets[name]; ok {
@@ -384,8 +387,10 @@ func (e *Env) index(x SIndex) TV {
 		h := e.w.ElemHeap(u.Elem())
 		return TV{Select(Select(e.heap(e.st, h), SlArr(b.T)), abs), u.Elem()}
 	case *types.Map:
-		val, _ := e.w.MapHeaps(u)
-		return TV{Select(Select(e.heap(e.st, val), b.T), i.T), u.Elem()}
+		// Go semantics: a missing key (or a nil map) yields the zero value
+		val, dom := e.w.MapHeaps(u)
+		in := And(Ne(b.T, IntLit(0)), Select(Select(e.heap(e.st, dom), b.T), i.T))
+		return TV{Ite(in, Select(Select(e.heap(e.st, val), b.T), i.T), e.w.Zero(u.Elem())), u.Elem()}
 	case *types.Basic:
 		if u.Info()&types.IsString != 0 {
 			return TV{App("gstr.at", SInt, b.T, i.T), types.Typ[types.Uint8]}
@@ -439,6 +444,21 @@ func (e *Env) call(x SCall) TV {
 			e.fail("ite branches of different sorts")
 		}
 		return TV{Ite(c.T, a.T, b.T), a.Typ}
+	case "forallstr":
+		// forallstr(k, body): k ranges over strings
+		argc(2)
+		id, ok := x.Args[0].(SIdent)
+		if !ok {
+			e.fail("bound variable must be an identifier")
+		}
+		n := *e
+		n.bound = map[string]Sort{}
+		for k, v := range e.bound {
+			n.bound[k] = v
+		}
+		n.bound[id.Name] = SStr
+		b := n.eval(x.Args[1])
+		return TV{Term{fmt.Sprintf("(forall ((%s Str)) %s)", id.Name, b.T.S), SBool}, types.Typ[types.Bool]}
 	case "forall", "exists":
 		// forall(i, lo, hi, body)  or  forall(i, body)
 		if len(x.Args) != 4 && len(x.Args) != 2 {
@@ -519,7 +539,7 @@ func (e *Env) call(x SCall) TV {
 			e.fail("has of non-map")
 		}
 		_, dom := e.w.MapHeaps(m)
-		return TV{Select(Select(e.heap(e.st, dom), a.T), k.T), types.Typ[types.Bool]}
+		return TV{And(Ne(a.T, IntLit(0)), Select(Select(e.heap(e.st, dom), a.T), k.T)), types.Typ[types.Bool]}
 	case "dyntype", "root", "ifaceval", "closurefn":
 		argc(1)
 		a := e.eval(x.Args[0])
